@@ -32,7 +32,7 @@ from happysimulator.parallel import ParallelSimulation, PartitionLink, Simulatio
 from simkit.world import InvalidScenario, repo_exception_sig, result  # noqa: E402
 
 PROPERTY = "C05"
-RUNS = {"quick": 6_000, "thorough": 400_000}
+RUNS = {"quick": 6_000, "thorough": 3_000_000}
 WALL = {"quick": 50, "thorough": 1500}
 BATCH = {"quick": 100, "thorough": 500}
 RULE = (
